@@ -414,6 +414,8 @@ type Client struct {
 	BoomSub  func(ctx context.Context, tok string, kind int) (<-chan Item, error)
 	Sub      func(ctx context.Context, tok string, n int, mode int) (<-chan Item, error)
 	Rev      func(ctx context.Context, tok string, k int, which int) (string, error)
+	React    func(ctx context.Context, tok string, delayMs int, size int) (string, error)
+	ReactN   func(ctx context.Context, tok string, delayMs int) error `notify:"true"`
 	SubInt   func(ctx context.Context, tok string, n int, mode int) (<-chan int, error)
 	SubStr   func(ctx context.Context, tok string, n int, mode int) (<-chan string, error)
 	SubBytes func(ctx context.Context, tok string, n int, mode int) (<-chan []byte, error)
@@ -493,4 +495,26 @@ func (s *Svc) SubBytes(ctx context.Context, tok string, n int, mode int) (<-chan
 }
 func (s *Svc) SubPtr(ctx context.Context, tok string, n int, mode int) (<-chan *Item, error) {
 	return typed(s, ctx, "SubPtr", tok, n, mode, func(i int) *Item { return &Item{Tok: tok, Seq: i} })
+}
+
+// React blocks until released or ctx done, then waits delayMs and returns size bytes.
+func (s *Svc) React(ctx context.Context, tok string, delayMs int, size int) (string, error) {
+	r, g := s.enter(ctx, "React", tok)
+	defer s.exit(ctx, r)
+	wait(ctx, g)
+	if delayMs > 0 {
+		time.Sleep(time.Duration(delayMs) * time.Millisecond)
+	}
+	return Reply(tok) + ":" + strings.Repeat("z", size), nil
+}
+
+// ReactN is the notification flavour of React.
+func (s *Svc) ReactN(ctx context.Context, tok string, delayMs int) error {
+	r, g := s.enter(ctx, "ReactN", tok)
+	defer s.exit(ctx, r)
+	wait(ctx, g)
+	if delayMs > 0 {
+		time.Sleep(time.Duration(delayMs) * time.Millisecond)
+	}
+	return nil
 }
